@@ -6,8 +6,6 @@
      copypath dsize source dest fs   utils.copypath on an abstract filesystem (paths = tuples of
                                      pathlib parts; dsize = what getsize reports for a directory);
                                      copypath_run also tells whether the call returned or raised
-     copy_target fs source dest      where shutil.copy writes: dest, or dest/basename(source) when
-                                     dest is an existing DIRECTORY
      find_matches / match_v1         Model/Rebuild.v (see Props/C13.v); `copies`/`trace` are the
                                      copypath calls in execution order as (candidate location, path
                                      relative to the destination)
@@ -21,33 +19,30 @@ Open Scope list_scope.
 (* one copypath call                                                                              *)
 (* ---------------------------------------------------------------------------------------------- *)
 
-(* frame: besides the copy target and ancestor directories of dest that did not exist, nothing
-   changes -- also when the call raises half way; the target keeps its content or receives the
-   source's *)
+(* frame: besides dest and ancestor directories of dest that did not exist, nothing changes -- also
+   when the call raises half way; dest keeps its content or receives the source's *)
 Theorem C14_copypath_frame : forall dsize source dest f,
-  let f' := copypath dsize source dest f in
-  let t := copy_target f source dest in
-  (forall p, p <> t -> ~ is_new_ancestor f p dest -> f' p = f p) /\
-  (f' t = f t \/ f' t = f source).
-Proof. exact copypath_frame. Qed.
-Print Assumptions C14_copypath_frame.
-
-(* the same with dest itself as the target -- partial: dest must not be an existing directory *)
-Theorem C14_copypath_frame_partial : forall dsize source dest f,
-  is_dir_b f dest = false ->
   let f' := copypath dsize source dest f in
   (forall p, p <> dest -> ~ is_new_ancestor f p dest -> f' p = f p) /\
   (f' dest = f dest \/ f' dest = f source).
-Proof. exact copypath_frame_partial. Qed.
-Print Assumptions C14_copypath_frame_partial.
+Proof. exact copypath_frame. Qed.
+Print Assumptions C14_copypath_frame.
 
-(* ... and without that guard it is false: a directory standing where the file should go (and
-   reported smaller than the source) receives the copy INSIDE it *)
-Theorem C14_copypath_frame_without_guard_refuted :
+(* a directory standing where the file should go is left alone, with everything in it *)
+Theorem C14_dir_dest_untouched : forall dsize source dest f,
+  is_dir_b f dest = true -> copypath_run dsize source dest f = Ok f.
+Proof. exact copypath_dir_dest_untouched. Qed.
+Print Assumptions C14_dir_dest_untouched.
+
+(* ... which was false of the code before the repair ff51958 (kept as the regression witness): the
+   copy landed INSIDE that directory, at a path that is neither dest nor one of its ancestors *)
+Theorem C14_copypath_frame_before_repair_refuted :
   exists dsize source dest f p,
-    p <> dest /\ ~ is_new_ancestor f p dest /\ copypath dsize source dest f p <> f p.
-Proof. exact copypath_frame_refuted. Qed.
-Print Assumptions C14_copypath_frame_without_guard_refuted.
+    p <> dest /\ ~ is_new_ancestor f p dest /\ ~ prefix p dest /\
+    fs_of (copypath_run_old_dir dsize source dest f) p <> f p /\
+    copypath_run dsize source dest f = Ok f.
+Proof. exact copypath_old_dir_dest_refuted. Qed.
+Print Assumptions C14_copypath_frame_before_repair_refuted.
 
 (* a destination that exists and is at least as long as the source (in particular: already has the
    full recorded length, candidates having exactly that length) is never touched, and nothing else is *)
@@ -64,10 +59,10 @@ Theorem C14_source_untouched : forall dsize source dest f,
 Proof. exact copypath_source_untouched. Qed.
 Print Assumptions C14_source_untouched.
 
-(* everything that changes lies on the way to the copy target, hence under the root of dest: with
-   dest = destination/full nothing under a search directory or beside the destination changes *)
+(* everything that changes is dest or one of its ancestors: with dest = destination/full nothing
+   under a search directory or beside the destination changes *)
 Theorem C14_changes_lead_to_the_target : forall dsize source dest f p,
-  copypath dsize source dest f p <> f p -> prefix p (copy_target f source dest).
+  copypath dsize source dest f p <> f p -> prefix p dest.
 Proof. exact copypath_targets_under_dest_parent. Qed.
 Print Assumptions C14_changes_lead_to_the_target.
 
